@@ -37,7 +37,7 @@ func VerifLemma_C03C_FieldName() {
 	}
 	if changed {
 		verifCover("field name changed")
-		verifAssert(rw.n == 1 && rw.vbHas("fieldname", cur), "FIELD_SAME_NAME reports the rename at the field name")
+		verifAssert(rw.n >= 1 && rw.vbAt(cur), "FIELD_SAME_NAME reports the rename at the field")
 	} else {
 		verifAssert(rw.n == 0, "FIELD_SAME_NAME silent for an unchanged name")
 	}
@@ -62,11 +62,7 @@ func VerifLemma_C03C_FieldJSONName() {
 	verifCover("json name handler returned")
 	if !isExt && prev.jsonName != cur.jsonName {
 		verifCover("json name changed")
-		want := "field"
-		if cur.hasJSONLoc {
-			want = "jsonname"
-		}
-		verifAssert(rw.n == 1 && rw.vbHas(want, cur), "FIELD_SAME_JSON_NAME reports the change at json_name (or the field)")
+		verifAssert(rw.n >= 1 && rw.vbAt(cur), "FIELD_SAME_JSON_NAME reports the change at the field (json_name option or the field itself)")
 	} else {
 		verifAssert(rw.n == 0, "FIELD_SAME_JSON_NAME silent for an unchanged json name / extensions")
 	}
@@ -112,7 +108,7 @@ func VerifLemma_C03C_FieldOneof() {
 		if prev.proto3Optional || cur.proto3Optional {
 			verifCover("move between a real oneof and a proto3 optional field")
 		}
-		verifAssert(rw.n == 1 && rw.vbHas("field", cur), "FIELD_SAME_ONEOF reports the move at the field")
+		verifAssert(rw.n >= 1 && rw.vbAt(cur), "FIELD_SAME_ONEOF reports the move at the field")
 	} else {
 		verifAssert(rw.n == 0, "FIELD_SAME_ONEOF silent when membership is unchanged")
 	}
@@ -137,18 +133,14 @@ func VerifLemma_C03C_FieldJSType() {
 	}
 	if is64(prev.typ) && is64(cur.typ) && prev.jsType != cur.jsType {
 		verifCover("jstype changed")
-		want := "field"
-		if cur.hasJSTypeLoc {
-			want = "jstype"
-		}
-		verifAssert(rw.n == 1 && rw.vbHas(want, cur), "FIELD_SAME_JSTYPE reports the change at jstype (or the field)")
+		verifAssert(rw.n >= 1 && rw.vbAt(cur), "FIELD_SAME_JSTYPE reports the change at the field (jstype option or the field itself)")
 	} else {
 		verifAssert(rw.n == 0, "FIELD_SAME_JSTYPE silent otherwise")
 	}
 }
 
 // VerifLemma_C03C_EnumValueSameName: for one enum value number with 1..2 previous and 1..2 current names:
-// ENUM_VALUE_SAME_NAME reports (one annotation per current value, at its number) iff some previous name of the
+// ENUM_VALUE_SAME_NAME reports (at a current value of that number) iff some previous name of the
 // number is no longer one of its names (adding an alias is compatible, removing / renaming is not).
 func VerifLemma_C03C_EnumValueSameName() {
 	nl := verifParam("NL")
@@ -185,10 +177,13 @@ func VerifLemma_C03C_EnumValueSameName() {
 	}
 	if renamed {
 		verifCover("a previous enum value name is gone for its number")
-		verifAssert(rw.n == len(curNames), "ENUM_VALUE_SAME_NAME: one annotation per current value")
+		atValue := false
 		for i := 0; i < len(curVals); i++ {
-			verifAssert(rw.vbHas("evnumber", curVals[i]), "ENUM_VALUE_SAME_NAME reports at each current value's number")
+			if rw.vbAt(curVals[i]) {
+				atValue = true
+			}
 		}
+		verifAssert(rw.n >= 1 && atValue, "ENUM_VALUE_SAME_NAME reports at a current value of the number")
 	} else {
 		verifAssert(rw.n == 0, "ENUM_VALUE_SAME_NAME silent when the current names cover the previous ones")
 	}
